@@ -449,18 +449,27 @@ class JSRegExp(JSObject):
         self.set("lastIndex", value)
         self._internal.lastIndex = value
 
+    def _run_exec(self, string: str):
+        """exec() of the internal regex under the lastIndex protocol.
+
+        The lastIndex property may hold any value: it is converted with ToLength.
+        Only global and sticky regexes write it back.
+        """
+        if "g" in self._flags or "y" in self._flags:
+            self._internal.lastIndex = max(0, to_integer(self.get("lastIndex")))
+            result = self._internal.exec(string)
+            self.set("lastIndex", self._internal.lastIndex)
+            return result
+        self._internal.lastIndex = 0
+        return self._internal.exec(string)
+
     def test(self, string: str) -> bool:
         """Test if the pattern matches the string."""
-        self._internal.lastIndex = self.lastIndex
-        result = self._internal.test(string)
-        self.lastIndex = self._internal.lastIndex
-        return result
+        return self._run_exec(string) is not None
 
     def exec(self, string: str):
         """Execute a search for a match."""
-        self._internal.lastIndex = self.lastIndex
-        result = self._internal.exec(string)
-        self.lastIndex = self._internal.lastIndex
+        result = self._run_exec(string)
 
         if result is None:
             return NULL
